@@ -64,6 +64,9 @@ CHECKS = {
  "C16": ("differential runtime monitor over load histories (long-lived loader object vs fresh loader per document; snapshots of published values; end-to-end lookups/AAA vs fresh server)",
          "Histories of 2-6 YAML/JSON documents (edits dropping keys, shrinking/reordering lists, removing per-user fields; invalid documents interleaved) are fed to one loader object; outcome and published value must equal a fresh loader's, earlier published values must not change, failed loads publish nothing; sampled histories are replayed through Loader+server and compared with a fresh server.",
          "nil == empty; fsnotify watcher not driven (it calls Load on the same object)", "3/C16"),
+ "C15": ("Go race detector over the whole reference server under generated concurrent load with reloads and shutdown (reports de-duplicated by owner-frame pair) + porcupine linearizability check of lookup/reload histories + re-hashing of published configurations",
+         "Workers built with -race run 8-48 client goroutines (all AAA kinds, multiplexed sessions, shared users), a reloader through the real yaml/json loaders, lookup probers and shutdowns, plus a slice over real loopback TCP; any race report owned by a tacquito frame is a violation. Lookup/reload histories with generation-encoding deny/allow lists and keys are checked with porcupine against a one-register model (a mixture is illegal in every state); every published configuration is deep-hashed and re-checked after later loads.",
+         "races only among executed accesses; write completion taken at the loader's own log line; harness-only race reports make the run inconclusive", "3/C15"),
 }
 
 NA_REASON = "check not built yet in this round (work in progress; see DESIGN.md section 3 for the planned monitor)"
